@@ -214,6 +214,216 @@ def residual_dims(model, res):
         res.analysed.append('%s:%s (%s)' % (RESMOD, cn, ','.join(unpack)))
 
 
+# ---------------------------------------------------------------------------
+# (5) derivatives: syntax-directed differentiation of the closed-form closures / residuals
+
+REGIONS = {   # class -> list of (label, density as a multiple of the reference density) that select a piece
+    'steinberg': [('tension, rho < reference_density', (1, 2)), ('compression, rho > reference_density', (2, 1))],
+}
+PARTIALS = [('P', 'e', 'rho', 'dP_drho'), ('P', 'e', 'e', 'dP_de'), ('e', 'P', 'rho', 'de_drho'), ('e', 'P', 'P', 'de_dP')]
+
+
+def _select_piece(ev, sy, x, subs, what):
+    """The piece of a piecewise normal form on which the point `subs` (sympy substitution) lies."""
+    import sympy as sp
+    from ..nf import leaves as nf_leaves, PW, Struct, NAN as _NAN
+
+    def value(n):
+        v = ev.nf(n)
+        if v is _NAN or isinstance(v, (PW, Struct)):
+            raise AnalysisError('%s: condition operand is not a closed form' % what)
+        return sy.conv(v).subs(subs)
+
+    def truth(c):
+        k = c.kind
+        if k == 'cmp' and len(c.args) == 2:
+            d = sp.simplify(value(c.args[0]) - value(c.args[1]))
+            pos, neg, zero = d.is_positive, d.is_negative, d.is_zero
+            if pos is None and neg is None and zero is None:
+                raise AnalysisError('%s: cannot decide `%s` on the region' % (what, c.src[:60]))
+            return {'<': bool(neg), '<=': bool(neg or zero), '>': bool(pos), '>=': bool(pos or zero),
+                    '==': bool(zero), '!=': not bool(zero)}[c.val]
+        if k == 'bool':
+            vals = [truth(a) for a in c.args]
+            return all(vals) if c.val == 'and' else any(vals)
+        if k == 'unop' and c.val == 'not':
+            return not truth(c.args[0])
+        if k == 'const':
+            return bool(c.val)
+        if k == 'phi':
+            return truth(c.args[1]) if truth(c.args[0]) else truth(c.args[2])
+        raise AnalysisError('%s: unsupported condition %s' % (what, k))
+    out = []
+    for conds, leaf in nf_leaves(x):
+        if all(truth(cn) == pol for _, pol, cn in conds):
+            out.append(leaf)
+    ks = {l.key() for l in out if l is not _NAN}
+    if len(ks) != 1:
+        raise AnalysisError('%s: %d pieces selected on the region' % (what, len(ks)))
+    return [l for l in out if l is not _NAN][0]
+
+
+def eos_derivatives(model, res):
+    import sympy as sp
+    from ..ratnf import NFSym
+    mod = model.modules[EOSMOD]
+    for cn, attrs in EOS_CLASSES.items():
+        ci = mod.classes[cn]
+        for clo_name, second, var, der_name in PARTIALS:
+            mc, md = ci.find_method(clo_name), ci.find_method(der_name)
+            if mc is None or md is None:
+                continue
+            b = Builder(model)
+            b.frame = Frame(None, mod, {}, None)
+            inst = b.symbolic_obj(ci, attrs)
+            rho = b.mk('input', 'rho')
+            x = b.mk('input', second)
+            vals = []
+            for m in (mc, md):
+                b.frame = Frame(None, mod, {}, None)
+                vals.append(b.call_closure(Closure(m, m.node, None, self_node=inst, cls=m.cls, module=m.module),
+                                           [rho, x], {}, m.node))
+            ev = NFEval(attrs)
+            sy = NFSym(ev)
+            nf_c, nf_d = ev.nf(vals[0]), ev.nf(vals[1])
+            rsym = sy.atom('input:rho')
+            vsym = sy.atom('input:%s' % var)
+            for label, ratio in REGIONS.get(cn, [('everywhere', None)]):
+                res.obligations += 1
+                res.evaluations += 1
+                res.nontrivial += 1
+                subs = {}
+                if ratio is not None:
+                    ref = sy.atom('param:reference_density')
+                    subs = {rsym: sp.Rational(*ratio) * ref}
+                what = '%s.%s / %s (%s)' % (cn, clo_name, der_name, label)
+                F = sy.conv(_select_piece(ev, sy, nf_c, subs, what))
+                G = sy.conv(_select_piece(ev, sy, nf_d, subs, what))
+                if is_zero(sp.diff(F, vsym) - G):
+                    res.discharged += 1
+                    res.sample({'rule': 'C16.derivative', 'class': cn, 'identity': '%s == d %s / d %s  [%s]'
+                                % (der_name, clo_name, var, label)}, limit=40)
+                else:
+                    res.add(Finding(PROP, 'C16.derivative', md.module.relpath, '%s.%s' % (md.cls.name if md.cls else cn, der_name),
+                                    '%s: %s is not d%s/d%s (%s)' % (cn, der_name, clo_name, var, label),
+                                    "EOS %s: the analytic partial derivative %s(rho, %s) is not the derivative of the closure "
+                                    "%s(rho, %s) with respect to %s on the piece `%s` (symbolic derivative of the closed form "
+                                    "minus the method's expression does not reduce to 0 as a rational function)"
+                                    % (cn, der_name, second, clo_name, second, var, label),
+                                    line=md.node.lineno, construct='def %s' % der_name))
+
+
+def _store_entries(node):
+    """{index: value node} of a store chain (latest store of each index)."""
+    out, x = {}, node
+    while x is not None and x.kind == 'store':
+        i = x.args[1]
+        if i.kind == 'const':
+            key = i.val
+        elif i.kind == 'tuple' and all(a.kind == 'const' for a in i.args):
+            key = tuple(a.val for a in i.args)
+        else:
+            key = None
+        if key is not None and key not in out:
+            out[key] = x.args[2]
+        x = x.args[0]
+    return out
+
+
+def residual_derivatives(model, res):
+    """DF[i, j] == d F_i / d x_j with a concrete (stiffened-gas) EOS object, whose own partials are decided
+    by eos_derivatives; and, for the classes that write the inverse by hand, F_prime_inv . F_prime == I."""
+    import sympy as sp
+    from ..ratnf import NFSym
+    mod = model.modules[RESMOD]
+    emod = model.modules[EOSMOD]
+    for cn, sym_val in [(c, k) for c in RES_CLASSES for k in ((0, 1, 2) if 'simplified' not in c else (0,))]:
+        # the geometry exponent takes the three admissible values (validated by the constructor): the
+        # power (1 - u_0/D)**(symmetry + 1) is then a polynomial and can be differentiated exactly
+        ci = mod.classes[cn]
+        mF, mJ, mI = ci.find_method('F'), ci.find_method('F_prime'), ci.find_method('F_prime_inv')
+        b = Builder(model)
+        b.frame = Frame(None, mod, {}, None)
+        eattrs = EOS_CLASSES['stiffened_gas_eos']
+        eos = b.symbolic_obj(emod.classes['stiffened_gas_eos'], eattrs)
+        attrs = ['u_0', 'rho_0', 'P_0', 'e_0', 'symmetry']
+        nstate = 3 if 'simplified' not in cn else 2
+        pre = {'equation_of_state': eos}
+        inst = b.symbolic_obj(ci, attrs, pre)
+        for a in ('result', 'DF', 'DF_inv'):
+            b.heap[inst.val.oid][a] = b.mk('call', 'numpy.zeros', [b.const(nstate)])
+        b.heap[inst.val.oid]['symmetry'] = b.const(sym_val)
+        if nstate == 2 or sym_val != 0:
+            b.heap[inst.val.oid]['P_0'] = b.const(0)      # enforced by the constructors: P_0 != 0 only for symmetry 0
+        xs = [b.mk('param', 'x%d' % i) for i in range(nstate)]
+        state = b.mk('tuple', args=xs)
+        outs = {}
+        for nm, m in (('F', mF), ('J', mJ), ('I', mI)):
+            b.frame = Frame(None, mod, {}, None)
+            outs[nm] = b.call_closure(Closure(m, m.node, None, self_node=inst, cls=m.cls, module=m.module), [state], {}, m.node)
+        ev = NFEval(attrs + eattrs + ['x0', 'x1', 'x2'])
+        sy = NFSym(ev)
+        xsym = [sy.atom('param:x%d' % i) for i in range(nstate)]
+
+        def S(n):
+            v = ev.nf(n)
+            from ..nf import NAN as _N, PW as _PW, Struct as _S
+            if v is _N or isinstance(v, (_PW, _S)):
+                raise AnalysisError('%s: component is not a closed form' % cn)
+            return sy.conv(v)
+        Fe, Je = _store_entries(outs['F']), _store_entries(outs['J'])
+        if set(Fe) != set(range(nstate)) or set(Je) != {(i, j) for i in range(nstate) for j in range(nstate)}:
+            raise AnalysisError('%s: F / F_prime components not all found (%s / %s)' % (cn, sorted(Fe), sorted(Je)))
+        Fs = [S(Fe[i]) for i in range(nstate)]
+        Js = {k: S(v) for k, v in Je.items()}
+        for i in range(nstate):
+            for j in range(nstate):
+                res.obligations += 1
+                res.evaluations += 1
+                res.nontrivial += 1
+                if is_zero(sp.diff(Fs[i], xsym[j]) - Js[(i, j)]):
+                    res.discharged += 1
+                    res.sample({'rule': 'C16.derivative', 'class': cn, 'identity': 'DF[%d,%d] == dF_%d/dx_%d (symmetry=%d)' % (i, j, i, j, sym_val)}, limit=40)
+                else:
+                    res.add(Finding(PROP, 'C16.derivative', mJ.module.relpath, '%s.F_prime' % cn,
+                                    '%s: DF[%d,%d] is not dF[%d]/dx[%d] (symmetry=%d)' % (cn, i, j, i, j, sym_val),
+                                    "%s: the Jacobian entry DF[%d,%d] = %s is not the derivative of the residual component "
+                                    "F[%d] with respect to unknown %d (with a stiffened-gas EOS object, whose own partials are "
+                                    "decided separately): symbolic derivative is %s"
+                                    % (cn, i, j, src_of(Je[(i, j)].origin[1])[:80] if Je[(i, j)].origin and Je[(i, j)].origin[1] is not None else '?',
+                                       i, j, str(sp.factor(sp.diff(Fs[i], xsym[j])))[:120]),
+                                    line=getattr(Je[(i, j)].origin[1], 'lineno', mJ.node.lineno) if Je[(i, j)].origin else mJ.node.lineno,
+                                    construct='DF[%d,%d]' % (i, j)))
+        # hand-written inverse (2 x 2 classes): rescaled store chain `(1/det) * DF_inv`
+        if nstate == 2:
+            inv = outs['I']
+            scale = sp.Integer(1)
+            node = inv
+            if node.kind == 'binop' and node.val == '*':
+                a0, a1 = node.args
+                chain = a1 if a1.kind == 'store' else a0
+                other = a0 if chain is a1 else a1
+                scale, node = S(other), chain
+            Ie = _store_entries(node)
+            if set(Ie) != {(i, j) for i in range(2) for j in range(2)}:
+                raise AnalysisError('%s.F_prime_inv: entries not found' % cn)
+            Is = {k: scale * S(v) for k, v in Ie.items()}
+            for i in range(2):
+                for j in range(2):
+                    res.obligations += 1
+                    res.evaluations += 1
+                    res.nontrivial += 1
+                    prod = sum(Is[(i, k)] * Js[(k, j)] for k in range(2)) - (1 if i == j else 0)
+                    if is_zero(prod):
+                        res.discharged += 1
+                        res.sample({'rule': 'C16.derivative', 'class': cn, 'identity': '(F_prime_inv . F_prime)[%d,%d] == %d' % (i, j, int(i == j))}, limit=40)
+                    else:
+                        res.add(Finding(PROP, 'C16.derivative', mI.module.relpath, '%s.F_prime_inv' % cn,
+                                        '%s: (F_prime_inv . F_prime)[%d,%d]' % (cn, i, j),
+                                        "%s: the hand-written inverse Jacobian times the Jacobian is not the identity in entry "
+                                        "[%d,%d]" % (cn, i, j), line=mI.node.lineno, construct='def F_prime_inv'))
+
+
 MIN_SETTERS = 8      # confirmed on the pinned tree: 4 EOS setters + 4 residual-class setters
 
 
@@ -316,4 +526,6 @@ def run(model, tier):
     inverse_closures(model, res)
     residual_dims(model, res)
     setter_coherence(model, res)
+    eos_derivatives(model, res)
+    residual_derivatives(model, res)
     return res
